@@ -168,13 +168,13 @@ use ChildState::*;
             let env = self.config.env.as_mut().unwrap();
             env.retain(|(k, _v)| k != key);"""),
  ("capture-out-err-locals", "src/builder.rs",
-  """            let (maybe_out, maybe_err) = comm.read()?;
+  """            let (maybe_out, maybe_err) = result?;
             Ok(CaptureData {
                 stdout: maybe_out.unwrap_or_else(Vec::new),
                 stderr: maybe_err.unwrap_or_else(Vec::new),
                 exit_status: p.wait()?,
             })""",
-  """            let (maybe_out, maybe_err) = comm.read()?;
+  """            let (maybe_out, maybe_err) = result?;
             let stdout = maybe_out.unwrap_or_default();
             let stderr = maybe_err.unwrap_or_default();
             let exit_status = p.wait()?;
@@ -376,13 +376,31 @@ use ChildState::*;
   """                let remaining = deadline.duration_since(now);""",
   """                let remaining = deadline.saturating_duration_since(now);"""),
  ("communicator-deadline-match", "src/communicate.rs",
-  """        let deadline = self.time_limit.map(|timeout| Instant::now() + timeout);
+  """        let deadline = self
+            .time_limit
+            .and_then(|timeout| Instant::now().checked_add(timeout));
         match self.inner.read(deadline, self.size_limit) {""",
   """        let deadline = match self.time_limit {
-            Some(timeout) => Some(Instant::now() + timeout),
+            Some(timeout) => Instant::now().checked_add(timeout),
             None => None,
         };
         match self.inner.read(deadline, self.size_limit) {"""),
+ ("capture-comm-in-inner-scope", "src/builder.rs",
+  """            let (mut comm, mut p) = self.setup_communicate()?;
+            let result = comm.read();
+            // Close our ends of the pipes before the process is waited for
+            // (also when p is dropped on error): if it is blocked writing
+            // output that will not be read any more, it would never exit.
+            drop(comm);
+            let (maybe_out, maybe_err) = result?;""",
+  """            let (comm, mut p) = self.setup_communicate()?;
+            // the communicator (and with it our ends of the pipes) is gone
+            // before anything can wait for the process
+            let result = {
+                let mut comm = comm;
+                comm.read()
+            };
+            let (maybe_out, maybe_err) = result?;"""),
  ("maybe_poll-saturating-timeout", "src/communicate.rs",
   """        let timeout = deadline.map(|deadline| {
             let now = Instant::now();
@@ -436,6 +454,14 @@ use ChildState::*;
                 }
                 quoted.push('\\'');
                 Cow::Owned(quoted)"""),
+ ("os_start-fork-result-bound-and-pretested", "src/popen.rs",
+  """                    match posix::fork()? {""",
+  """                    let forked = posix::fork();
+                    let in_child = matches!(forked, Ok(None));
+                    if !in_child {
+                        // (nothing to do on the parent side)
+                    }
+                    match forked? {"""),
 ]
 
 # additional edits (same file) belonging to a refactor: (old, new) pairs
